@@ -437,6 +437,51 @@ def interleave_rules(ctx, rep):
             loc = loc[1]
         return loc if loc[0] == "local" else None
 
+    # ---- streaming form: no scratch arrays; for pair in S.chunks_exact(2) { E.update(&pair[..1]);
+    # F.update(&pair[1..]) } with E, F two SHA-1 states - the same bytes in the same order, because
+    # update is concatenation (pair k is S[2k], S[2k+1]; a trailing odd byte is in no pair)
+    streamed = {}
+    from rules import algos as _algos
+    for lp in loops:
+        ini = strip(lp["init"] or ("?",))
+        if not (util.is_call(ini, "core::slice::<impl [T]>::chunks_exact") and strip(ini[2][0]) == Sv and loopsem.const_usize(ini[2][1]) == 2):
+            continue
+        elem = strip(lp["elem"])
+        for key, (init, step) in _algos.loop_state(se2, lp["next_bb"]).items():
+            ph = _algos.phi_of(se2, lp["next_bb"], key)
+            i0, st_ = strip(init), strip(step)
+            if not (util.is_call(i0) and i0[1].endswith("Digest>::new") and not i0[2]):
+                continue
+            if not (st_[0] == "after" and util.is_call(st_[1]) and st_[1][1].endswith("Digest>::update") and st_[2] == 0 and st_[3] == ph and len(st_[1][2]) == 2):
+                continue
+            piece = strip(st_[1][2][1])
+            if util.is_call(piece) and piece[1].endswith("::index") and len(piece[2]) == 2 and strip(piece[2][0]) == elem:
+                rg = strip(piece[2][1])
+                if rg[0] == "agg" and rg[2] == "std::ops::RangeTo" and loopsem.const_usize(rg[4][0]) == 1:
+                    streamed["even"] = ph
+                elif rg[0] == "agg" and rg[2] == "std::ops::RangeFrom" and loopsem.const_usize(rg[4][0]) == 1:
+                    streamed["odd"] = ph
+                elif rg[0] == "agg" and rg[2] == "std::ops::Range" and (loopsem.const_usize(rg[4][0]), loopsem.const_usize(rg[4][1])) == (0, 1):
+                    streamed["even"] = ph
+                elif rg[0] == "agg" and rg[2] == "std::ops::Range" and (loopsem.const_usize(rg[4][0]), loopsem.const_usize(rg[4][1])) == (1, 2):
+                    streamed["odd"] = ph
+    if set(streamed) == {"even", "odd"} and streamed["even"] != streamed["odd"]:
+        rep.ok("interleave", fn2, "even-bytes", "even-indexed bytes streamed into their own SHA-1 state, pair by pair (S.chunks_exact(2), pair[..1])", b2.loc())
+        rep.ok("interleave", fn2, "odd-bytes", "odd-indexed bytes streamed into their own SHA-1 state, pair by pair (pair[1..])", b2.loc())
+        digests = {}
+        n_dig = 0
+        for bb, i in se2.term_info.items():
+            if i.get("k") == "call" and i["name"] in util.DIGEST_FINAL:
+                n_dig += 1
+                a0 = strip(i["args"][0])
+                for tag, ph in streamed.items():
+                    if a0 == ph:
+                        digests[tag] = strip(i["term"])
+        n_upd = sum(1 for i in se2.term_info.values() if i.get("k") == "call" and i["name"].endswith("Digest>::update"))
+        rep.check(n_dig == 2 and set(digests) == {"even", "odd"} and n_upd == 2, "interleave", fn2, "two-half-hashes", "G = SHA1(even bytes), H = SHA1(odd bytes): each state is finalised once, nothing else is hashed", "the two half hashes are not the finalised even / odd states (%d digests, %d updates)" % (n_dig, n_upd), b2.loc())
+        interleave_output(ctx, rep, se2, fn2, b2, stmts, digests, EVEN_N, local_of)
+        return
+
     halves = {}
     for tag, off in (("even", 0), ("odd", 1)):
         hits = [(d, A, c) for d, A, v, c in stmts if v[0] == "at" and v[1] == Sv and v[2] == (2, off)]
@@ -499,6 +544,10 @@ def interleave_rules(ctx, rep):
                             digests[tag] = strip(i["term"])
     rep.check(n_dig == 2 and set(digests) == {"even", "odd"}, "interleave", fn2, "two-half-hashes", "G = SHA1(E[..len/2]), H = SHA1(F[..len/2])", "the two half hashes are not SHA1(E[..len/2]) and SHA1(F[..len/2]) (%d digests, recognised over %s)" % (n_dig, sorted(digests)), b2.loc())
 
+    interleave_output(ctx, rep, se2, fn2, b2, stmts, digests, EVEN_N, local_of)
+
+
+def interleave_output(ctx, rep, se2, fn2, b2, stmts, digests, EVEN_N, local_of):
     # ---- K[2i] = G[i], K[2i+1] = H[i] for the 20 digest positions, into the array that is returned
     good = False
     why = "no loop writes the digests alternately"
